@@ -430,6 +430,20 @@ def awaits_of(fx):
     return [r for r in fx if r[0] == "await"]
 
 
+def pos(fx, r):
+    """position of the record r itself (identity, not equality) in the effects list"""
+    return [i for i, q in enumerate(fx) if q is r][0]
+
+
+def armed(fx):
+    return [r for r in fx if r[0] == "timeout.armed"]
+
+
+def waits_after_slot(fx):
+    """suspensions of the send after the first one (the wait for the transmit slot)"""
+    return [r for r in fx if r[0] == "await"][1:]
+
+
 @contract("bellows.ash.AshProtocol._send_data_frame", props=["C05", "C01", "C10", "C11"])
 def _(c):
     c.self(ASH)
@@ -510,6 +524,22 @@ def _(c):
     c.ensures(
         "post.no_sleep",
         lambda fx: [r for r in fx if r[0] == "asyncio.sleep"] == [],
+        on="any",
+    )
+    # "ends within the retry budget": once the transmit slot is held, every suspension of the send is a wait under its
+    # own acknowledgement timeout (no untimed wait, no sleep), and the timeouts add up to at most ACK_TIMEOUTS * T_MAX.
+    # With asyncio's contract for timeout (a wait under timeout(t) lasts at most t) this bounds the time from acquiring
+    # the slot to the end of the send -- the ghost-time bound of DESIGN 2.6, stated over the recorded waits
+    c.ensures(
+        "post.every_wait_while_holding_the_slot_is_timed",
+        lambda fx: len(waits_after_slot(fx)) == len(armed(fx))
+        and all(pos(fx, armed(fx)[i]) < pos(fx, waits_after_slot(fx)[i]) for i in range(len(armed(fx))))
+        and all(pos(fx, waits_after_slot(fx)[i - 1]) < pos(fx, armed(fx)[i]) for i in range(1, len(armed(fx)))),
+        on="any",
+    )
+    c.ensures(
+        "post.total_wait_within_the_retry_budget",
+        lambda fx: sum([r[2][0] for r in armed(fx)]) <= ash.ACK_TIMEOUTS * ash.T_RX_ACK_MAX,
         on="any",
     )
     # "it then returns after an acknowledgement covering its frame": a normal return happens only when
